@@ -9,6 +9,7 @@ import (
 
 	"golang.org/x/tools/go/ssa"
 
+	"voicheck/emod"
 	"voicheck/load"
 	"voicheck/report"
 )
@@ -454,4 +455,57 @@ func checkReturnGlobal(p *load.Program, rule *report.Rule, discover bool) map[st
 	}
 	sort.Strings(found)
 	return map[string]any{"exported functions with pointer-like results": n, "discovered": found}
+}
+
+// RETURN-interior: no exported function or method of a public package returns a pointer INTO the
+// object one of its pointer parameters (usually the receiver) designates (&p.point, &tbl[i]): the
+// caller could write through it and desynchronise the object's parts (an expanded point whose stored
+// point no longer matches its precomputed table).  Returning the receiver itself (chaining) is fine.
+var returnInteriorExceptions = map[string]string{}
+
+func checkReturnInterior(p *load.Program, rule *report.Rule, discover bool) map[string]any {
+	n := 0
+	var found []string
+	for _, fn := range p.ModuleFuncs() {
+		if fn.Pkg == nil || fn.Object() == nil || !fn.Object().Exported() || len(fn.Blocks) == 0 {
+			continue
+		}
+		rel := load.Rel(fn.Pkg.Pkg)
+		if strings.HasPrefix(rel, "internal") || strings.Contains(rel, "/internal") {
+			continue
+		}
+		sig := fn.Signature
+		if sig.Recv() != nil {
+			rt := sig.Recv().Type()
+			if pt, ok := rt.(*types.Pointer); ok {
+				rt = pt.Elem()
+			}
+			if nm, ok := rt.(*types.Named); ok && !nm.Obj().Exported() {
+				continue
+			}
+		}
+		ptrRes := false
+		for i := 0; i < sig.Results().Len(); i++ {
+			if _, ok := sig.Results().At(i).Type().Underlying().(*types.Pointer); ok {
+				ptrRes = true
+			}
+		}
+		if !ptrRes {
+			continue
+		}
+		n++
+		name := load.FuncName(fn)
+		pi, pos, bad := emod.InteriorReturn(fn)
+		if !bad || returnInteriorExceptions[name] != "" {
+			rule.OK(name)
+			continue
+		}
+		if discover {
+			found = append(found, fmt.Sprintf("%s interior of %s at %s", name, paramRecordedName(fn, pi), p.Pos(pos)))
+			continue
+		}
+		rule.Fail(p.Pos(pos), name, fmt.Sprintf("returns a pointer into the object %q designates: the caller can modify a part of the object behind its back (its other parts — cached tables, flags — no longer match); return a copy", paramRecordedName(fn, pi)), nil)
+	}
+	sort.Strings(found)
+	return map[string]any{"exported functions with pointer results": n, "discovered": found}
 }
